@@ -348,9 +348,22 @@ def verus_run(path, timeout=600, extra=None):
         first = b.splitlines()[0]
         loc = re.search(r"--> (\S+?):(\d+):(\d+)", b)
         failed.append(dict(msg=first, line=int(loc.group(2)) if loc else 0, text=b[:2000]))
+    # per-function verdicts from the JSON (robust against message wording)
+    fn_results = {}
+    fn_time = {}
+    try:
+        for m in tm.get("smt", {}).get("smt-run-module-times", []):
+            for f in m.get("function-breakdown", []):
+                n = f["function"].split("::")[-1]
+                fn_results[n] = bool(f.get("success")) and fn_results.get(n, True)
+                fn_time[n] = fn_time.get(n, 0) + f.get("time-micros", 0) / 1e6
+    except Exception:
+        pass
     return dict(ok=(rc == 0 and vr.get("errors", 1) == 0 and vr.get("success", False)),
                 timeout=False, verified=vr.get("verified", 0), errors=vr.get("errors", 0),
-                stderr=err, failed=failed, wall_s=time.time() - t0, smt_s=smt_ms / 1000.0, rc=rc,
+                vir_error=bool(vr.get("encountered-vir-error")) or not vr,
+                stderr=err, failed=failed, fn_results=fn_results, fn_time=fn_time,
+                wall_s=time.time() - t0, smt_s=smt_ms / 1000.0, rc=rc,
                 cmd=" ".join(cmd), json=j)
 
 
@@ -507,7 +520,7 @@ class Run:
             # obligations carried for *this* property: all checks of the harness except clauses named for others
             c["obligations"] = r.total
             c["discharged"] = r.total - r.failed_n
-            if r.covers_total and r.covers_sat < r.covers_total:
+            if r.status == "success" and r.covers_total and r.covers_sat < r.covers_total:
                 self.undecided.append(dict(contract=short, reason="vacuity: %d of %d cover properties unsatisfiable"
                                            % (r.covers_total - r.covers_sat, r.covers_total)))
             for d, loc in mine:
@@ -519,57 +532,57 @@ class Run:
 
     # ---- Verus results ---------------------------------------------------------------
     def absorb_verus(self, vr, path, fn_specs, src):
-        """fn_specs: {fn_name: dict(obligation='Cxx:name', functions=[...], canary=bool)}"""
+        """fn_specs: {fn_name: dict(obligation='Cxx:name', functions=[...], canary=bool, kind=..)}.
+        Verdicts are per function, from Verus' JSON; stderr is kept as the verifier's reason."""
         self.backends.add("Verus 0.2026.09.13 / Z3")
         self.checker_cmds.append(vr["cmd"].replace(os.path.dirname(path) + "/", ""))
         self.solver_s += vr.get("smt_s", 0.0)
         if vr.get("timeout"):
             self.undecided.append(dict(contract=os.path.basename(path), reason="verus timeout"))
             return
-        failed_fns = {}
-        hard_error = False
-        for f in vr["failed"]:
-            if f["msg"].startswith("error: aborting") or f["msg"].startswith("error: could not"):
-                continue
-            fn = fn_at_line(src, f["line"]) if f["line"] else None
-            if re.search(r"postcondition not satisfied|assertion failed|precondition not satisfied|invariant not satisfied|"
-                         r"decreases not satisfied|possible arithmetic|possible division|possible bit shift|"
-                         r"possible truncation|recommendation not met|loop invariant|failed this postcondition|"
-                         r"index out of bounds|unreachable", f["text"]) and fn:
-                failed_fns.setdefault(fn, []).append(f)
-            elif re.search(r"rlimit|resource limit", f["text"]) and fn:
-                self.undecided.append(dict(contract=fn, reason="verus rlimit", detail=f["text"][:500]))
-                failed_fns.setdefault("__rlimit__" + fn, [])
-            else:
-                hard_error = True
-                self.undecided.append(dict(contract=os.path.basename(path),
-                                           reason="verus rejected the file (unsupported construct / lost anchor / syntax)",
-                                           detail=f["text"][:1500]))
-        if hard_error:
+        fr = vr.get("fn_results", {})
+        if vr.get("vir_error") or (vr["rc"] != 0 and not any(v is False for v in fr.values())):
+            self.undecided.append(dict(contract=os.path.basename(path),
+                                       reason="verus rejected the file (unsupported construct / lost anchor / syntax)",
+                                       detail=vr["stderr"][:3000]))
             return
+        by_fn = {}
+        for f in vr["failed"]:
+            fn = fn_at_line(src, f["line"]) if f["line"] else None
+            if fn:
+                by_fn.setdefault(fn, []).append(f)
         for fn, sp in fn_specs.items():
+            ok = fr.get(fn)
             if sp.get("canary"):
                 self.canaries_expected += 1
-                if fn in failed_fns:
+                if ok is False:
                     self.canaries_refuted += 1
                 else:
                     self.undecided.append(dict(contract=fn, reason="vacuity canary was not refuted by Verus"))
                 continue
             for f in sp.get("functions", []):
                 self.functions.add(f)
-            bad = fn in failed_fns
-            rl = ("__rlimit__" + fn) in failed_fns
-            c = dict(name=fn, kind=sp.get("kind", "complete"), engine="verus", status="failed" if bad else ("timeout" if rl else "success"),
-                     obligations=1, discharged=0 if (bad or rl) else 1, time_s=0.0)
+            if ok is None:
+                self.undecided.append(dict(contract=fn, reason="verus reported no verdict for this function (lost anchor?)"))
+                continue
+            texts = by_fn.get(fn, [])
+            rl = any(re.search(r"rlimit|resource limit|timed out", t["text"]) for t in texts)
+            c = dict(name=fn, kind=sp.get("kind", "complete"), bound=sp.get("bound"), engine="verus",
+                     status="success" if ok else ("timeout" if rl else "failed"),
+                     obligations=1, discharged=1 if ok else 0, time_s=vr.get("fn_time", {}).get(fn, 0.0))
             self.contracts.append(c)
-            if bad:
-                self.refuted.append(dict(obligation=sp.get("obligation", self.prop + ":" + fn), description=failed_fns[fn][0]["msg"],
-                                         contract=fn, harness=fn, location="line %d" % failed_fns[fn][0]["line"], engine="verus",
-                                         kind=sp.get("kind", "complete"), detail="\n".join(x["text"] for x in failed_fns[fn])[:4000]))
-        unknown = [fn for fn in failed_fns if fn not in fn_specs and not fn.startswith("__rlimit__")]
-        for fn in unknown:
-            self.undecided.append(dict(contract=fn, reason="verus failure in a helper that is not a registered contract",
-                                       detail=failed_fns[fn][0]["text"][:1500]))
+            if not ok and rl:
+                self.undecided.append(dict(contract=fn, reason="verus rlimit/timeout", detail=texts[0]["text"][:500]))
+            elif not ok:
+                self.refuted.append(dict(obligation=sp.get("obligation", self.prop + ":" + fn),
+                                         description=(texts[0]["msg"] if texts else "verification failed"),
+                                         contract=fn, harness=fn, location=("line %d" % texts[0]["line"]) if texts else "",
+                                         engine="verus", kind=sp.get("kind", "complete"),
+                                         detail="\n".join(x["text"] for x in texts)[:4000]))
+        for fn, ok in fr.items():
+            if ok is False and fn not in fn_specs:
+                self.undecided.append(dict(contract=fn, reason="verus failure in a helper that is not a registered contract",
+                                           detail=(by_fn.get(fn) or [dict(text="")])[0]["text"][:1500]))
 
     # ---- finish ------------------------------------------------------------------------
     def finish(self, replay_hook=None, level="proof"):
@@ -589,16 +602,14 @@ class Run:
             else:
                 new.append(r)
         viol_lines = []
+        if new and replay_hook:
+            try:
+                replay_hook(new)   # sets r["replay"], r["has_input"] where it can
+            except Exception as e:  # replay generation must never hide the violation
+                log("[replay] generation failed: %r" % (e,))
         for r in new:
-            path = None
-            tail = ""
-            if replay_hook:
-                try:
-                    path, has_input = replay_hook(r)
-                    if not has_input:
-                        tail = " no-failing-input-found"
-                except Exception as e:  # replay generation must never hide the violation
-                    log("[replay] generation failed: %r" % (e,))
+            path = r.get("replay")
+            tail = "" if r.get("has_input") else " no-failing-input-found"
             if path is None:
                 path = os.path.join(VERIF, "replays", self.prop, slug(r["contract"] + "__" + r["obligation"]) + ".json")
                 write(path, json.dumps(dict(property=self.prop, obligation=r["obligation"], contract=r["contract"],
@@ -610,7 +621,12 @@ class Run:
                               % (self.prop, path, r["obligation"], r["contract"], tail))
         complete = [c for c in self.contracts if c["kind"] == "complete"]
         bounded = [c for c in self.contracts if c["kind"] != "complete"]
-        obl = sum(c["obligations"] for c in complete if c["status"] in ("success", "failed"))
+        known_n = {}
+        for r in self.refuted:
+            if r.get("known") and r.get("kind", "complete") == "complete":
+                known_n[r["contract"]] = known_n.get(r["contract"], 0) + 1
+        # obligations that are recorded known findings are reported under known_findings_reported, not counted
+        obl = sum(c["obligations"] for c in complete if c["status"] in ("success", "failed")) - sum(known_n.values())
         dis = sum(c["discharged"] for c in complete if c["status"] in ("success", "failed"))
         wall = time.time() - self.t0
         vac_ok = (self.canaries_expected == self.canaries_refuted)
@@ -731,39 +747,43 @@ def run_batches(run, scratch, batches, log_prefix=None):
         run.absorb_kani(res, b.specs, meta, b.crate)
 
 
-def make_kani_replay_hook(run, scratch, batches):
-    def hook(r):
-        if r["engine"] != "kani":
-            return None, False
-        b = next((b for b in batches if r["harness"] in b.specs), None)
-        if b is None:
-            return None, False
-        res, meta = kani_run(scratch, b.crate, [r["harness"]], features=b.features, jobs=1,
-                             harness_timeout=max(b.harness_timeout, 600), stubbing=b.stubbing, extra=b.extra, playback=True)
-        tests = extract_playback_tests(meta["out"])
-        pick = None
-        for h, chk, src in tests:
-            if r["description"] in chk or chk in r["description"]:
-                pick = src
-                break
-        if pick is None:
-            for h, chk, src in tests:
-                if "cover" not in src.split("Check for")[1][:12] if "Check for" in src else True:
-                    pick = src
-                    break
-        vals = re.findall(r"^\s*//\s*(.+)$\n\s*vec!\[([^\]]*)\]", pick or "", re.M)
-        mod = r["harness"].split("::")[-2] if "::" in r["harness"] else None
-        path = os.path.join(VERIF, "replays", run.prop, slug(r["contract"] + "__" + r["obligation"]) + ".json")
-        write(path, json.dumps(dict(
-            property=run.prop, obligation=r["obligation"], description=r["description"], contract=r["contract"],
-            harness=r["harness"], crate=b.crate, features=b.features, module=mod, engine="kani",
-            location=r.get("location"),
-            failing_input=[dict(value=v.strip(), bytes=[int(x) for x in bs.replace(" ", "").split(",") if x]) for v, bs in vals] if pick else None,
-            playback_test=pick, verifier_output=res[r["harness"]].raw[-3000:] if r["harness"] in res else "",
-            how="./check %s --replay %s  (injects the contract module and this #[test] into a scratch copy of /repo's current tree "
-                "and runs `cargo kani playback`: the real functions execute natively on the concrete values)" % (run.prop, path),
-        ), indent=1))
-        return path, bool(pick)
+def make_kani_replay_hook(run, scratch, batches, max_harnesses=12):
+    """Re-runs the refuted harnesses (one cargo-kani invocation per batch) with concrete playback and writes
+    one replay file per refuted obligation."""
+    def hook(refuted):
+        todo = [r for r in refuted if r["engine"] == "kani"]
+        for b in batches:
+            mine = [r for r in todo if r["harness"] in b.specs]
+            if not mine:
+                continue
+            hs = []
+            for r in mine:
+                if r["harness"] not in hs and len(hs) < max_harnesses:
+                    hs.append(r["harness"])
+            res, meta = kani_run(scratch, b.crate, hs, features=b.features, jobs=1,
+                                 harness_timeout=max(b.harness_timeout, 600), stubbing=b.stubbing, extra=b.extra, playback=True)
+            tests = extract_playback_tests(meta["out"])
+            for r in mine:
+                pick = None
+                for h, chk, src in tests:
+                    if h == r["harness"] and (r["description"] in chk or (chk and chk in r["description"])):
+                        pick = src
+                        break
+                vals = re.findall(r"^\s*//\s*(.+)$\n\s*vec!\[([^\]]*)\]", pick or "", re.M)
+                mod = r["harness"].split("::")[-2] if "::" in r["harness"] else None
+                path = os.path.join(VERIF, "replays", run.prop, slug(r["contract"] + "__" + r["obligation"]) + ".json")
+                write(path, json.dumps(dict(
+                    property=run.prop, obligation=r["obligation"], description=r["description"], contract=r["contract"],
+                    harness=r["harness"], crate=b.crate, features=b.features, module=mod, engine="kani",
+                    location=r.get("location"),
+                    failing_input=[dict(value=v.strip(), bytes=[int(x) for x in bs.replace(" ", "").split(",") if x]) for v, bs in vals] if pick else None,
+                    playback_test=pick,
+                    verifier_output=(res[r["harness"]].raw[:3000] if r["harness"] in res else ""),
+                    how="./check %s --replay %s  (injects the contract module and this #[test] into a scratch copy of /repo's current tree "
+                        "and runs `cargo kani playback`: the real functions execute natively on the concrete values)" % (run.prop, path),
+                ), indent=1))
+                r["replay"] = path
+                r["has_input"] = bool(pick)
     return hook
 
 
